@@ -27,6 +27,7 @@ Definition content_eqb (a b : content) : bool :=
   | CInfo x, CInfo y => Bool.eqb x y
   | CQpr f, CQpr g => f =? g
   | CTorn, CTorn => true
+  | CLong, CLong => true
   | _, _ => false
   end.
 Definition op_eqb (a b : op) : bool :=
@@ -116,6 +117,10 @@ Inductive case :=
          (ops : list op) (final : dir) (found done reqok : bool) (res : qpr)
 (* proxy level: the replicas of every shard with their (real) store answers, the synchronous answer of
    every shard, and what Ingestor.FetchAsyncSearchResult returned (None = NotFound) *)
+(* FetchSearchResult overlapping the worker: the request is resumed on the directory after k operations
+   of the first run, the fetch looks it up and lists the files while the worker has not progressed,
+   then the worker finishes (Done) while the fetch is still reading; (done, res) = the fetch's answer *)
+| CRace (w : world) (k : nat) (found done : bool) (res : qpr)
 | CProxy (naggs : nat) (size hi : N) (rev : bool) (shards : list (list replica)) (syncs : list qpr)
          (impl : option (bool * qpr)).
 
@@ -160,6 +165,10 @@ Definition case_agrees (c : case) : bool :=
       && Bool.eqb (found s) fnd
       && Bool.eqb (is_done fin) dn
       && qpr_eqb (if found s then fetch_dir (w_hi w) (w_rev w) (w_per w) fin else qpr_zero) res
+  | CRace w k fnd dn res =>
+      let s := crash_state [] (start_ops (w_fs w)) k 0 in
+      let r := fetch_concurrent (w_hi w) (w_rev w) (w_per w) s (apply_ops s (resume_ops s (w_fs w))) in
+      Bool.eqb fnd (found s) && Bool.eqb dn (fst r) && qpr_eqb res (snd r)
   | CProxy naggs size hi rev shards syncs impl =>
       match proxy_fetch naggs size hi rev shards, impl with
       | None, None => true
@@ -184,7 +193,7 @@ Definition case_spec_ok (c : case) : bool :=
       (* an acknowledged request is on disk, complete *)
       (negb acked || pub)
       && (* whatever is visible under a final name is complete *)
-         forallb (fun e => negb (N.even (fst e)) || match snd e with CTorn => false | _ => true end) obs
+         forallb (fun e => negb (N.even (fst e)) || match snd e with CTorn | CLong => false | _ => true end) obs
       && (if pub then
             fnd && dn && reqok
             && durable ops && writes_tmp_only ops
@@ -193,6 +202,17 @@ Definition case_spec_ok (c : case) : bool :=
             && complete_qprs final (w_fs w)
             && same_answer (w_limit w) res (w_sync w)
           else negb fnd)
+  | CRace w k fnd dn res =>
+      (* Done => the synchronous answer; not Done => the merge of the partial results of a prefix of the
+         request's fraction list *)
+      fnd
+      && (if dn then same_answer (w_limit w) res (w_sync w)
+          else existsb (fun j =>
+                 let sub := firstn j (w_fs w) in
+                 let qs := map snd (filter (fun e => existsb (N.eqb (fst e)) sub) (w_per w)) in
+                 let m := sync_search (w_naggs w) 18446744073709551615 (w_hi w) (w_rev w) qs in
+                 idl_eqb (q_ids res) (q_ids m) && hist_eqb (q_hist res) (q_hist m) && aggs_eqb (q_aggs res) (q_aggs m))
+               (seq 0 (S (length (w_fs w)))))
   | CProxy naggs size hi rev shards syncs impl =>
       let ans := answering shards syncs in
       (length shards =? length syncs)%nat
